@@ -1456,6 +1456,12 @@ impl Fsm {
     /// * check if all state/transition references are correct (all states have a document-id)
     /// * check if all special scxml conditions are satisfied.
     fn valid(&self) -> bool {
+        if self.pseudo_root == 0 || self.states.is_empty() {
+            // Nothing to interpret, e.g. <invoke><content> that contained no <scxml> element.
+            #[cfg(feature = "Trace")]
+            self.tracer.trace("FSM has no states");
+            return false;
+        }
         for state in &self.states {
             if state.doc_id == 0 {
                 #[cfg(feature = "Trace")]
